@@ -6,7 +6,7 @@
    exhibited on the model (open findings K2, K3). *)
 From Coq Require Import ZArith List Bool String PArith.
 From Droop Require Import Model.KernelBase Model.Arith Model.Prelude Model.State Model.Prims Model.Election
-  Proofs.CmdMeta Proofs.Decided.
+  Proofs.CmdMeta Proofs.Decided Proofs.Forward Proofs.ForwardCount.
 Import ListNotations.
 Open Scope Z_scope.
 
@@ -16,6 +16,16 @@ Theorem C01_everyone_decided_partial : forall A cfg r pr fuel s,
   forall c, In c (cands s) -> cst c = Elected \/ cst c = Defeated \/ cst c = Withdrawn.
 Proof. exact count_decided. Qed.
 Print Assumptions C01_everyone_decided_partial.
+
+(* no withdrawn candidate is ever elected (or anything but withdrawn), and nobody becomes withdrawn: every rule
+   except QPQ, counts that end normally; positionwise, for every snapshot and for the final statuses *)
+Theorem C01_withdrawn_stay_withdrawn_partial : forall A cfg r pr fuel s,
+  not_qpq r -> NoDup (map pc_cid (pr_cands pr)) ->
+  exec (@crashed A) fuel (count_cmd A cfg r) (init_state A cfg pr) = Some (s, Next) ->
+  Forall2 (fun a b => fst a = fst b /\ (fst (snd a) = Withdrawn <-> fst (snd b) = Withdrawn))
+          (stl A (cands (init_state A cfg pr))) (stl A (cands s)).
+Proof. exact (fun A cfg r pr fuel s H1 H2 H3 => fwdl_withdrawn _ _ (proj2 (proj2 (count_forward A cfg r pr fuel s H1 H2 H3)))). Qed.
+Print Assumptions C01_withdrawn_stay_withdrawn_partial.
 
 (* each rule separately, as a Hoare triple: whatever the state before, a normal end leaves nobody hopeful *)
 Theorem C01_rule_settles_everyone : forall A cfg r,
